@@ -26,7 +26,7 @@ def one(arg):
 if __name__ == "__main__":
     args = []
     only = set(sys.argv[1:])   # e.g. C03/out/3
-    for c in sorted(Path("/tmp/wt").glob("C??")):
+    for c in sorted(Path(os.environ.get("WT_ROOT", "/tmp/wt")).glob("C??")):
         for k in sorted((c / "out").glob("*")):
             if (k / PNAME).exists() and (not only or f"{c.name}/out/{k.name}" in only or c.name in only):
                 args.append((str(k), c.name))
@@ -37,5 +37,5 @@ if __name__ == "__main__":
         status = "MISS" if not fired else ("own" if ownhit else "other-prop")
         if fired and not isinstance(fired, str): caught += 1
         if ownhit: own += 1
-        print(f"{d[8:]:14s} {status:10s} {fired if fired else ''} {errs if errs else ''}")
+        print(f"{d[len(os.environ.get('WT_ROOT', '/tmp/wt'))+1:]:14s} {status:10s} {fired if fired else ''} {errs if errs else ''}")
     print(f"caught {caught}/{len(rows)} (own {own})")
